@@ -341,6 +341,16 @@ impl<TStdlib: Stdlib, TStdIn: Input, TStdOut: Printer, TLpt1: Printer>
                 registers::push_registers(self);
             }
             Instruction::PopRegisters => {
+                // the frame at the bottom is not the frame of a FOR loop: control is in
+                // the body of a FOR loop whose header was not executed, or after whose end
+                // control came back (RESUME label, RETURN label, a RETURN after the loop
+                // that contains the GOSUB has ended)
+                if self.register_stack.len() <= 1 {
+                    return Err(RuntimeError::LinterError(
+                        rusty_linter::core::LintError::NextWithoutFor,
+                    ))
+                    .with_err_at(&pos);
+                }
                 registers::pop_registers(self);
             }
             Instruction::LoadIntoA(v) => {
@@ -627,7 +637,13 @@ impl<TStdlib: Stdlib, TStdIn: Input, TStdOut: Printer, TLpt1: Printer>
                 self.value_stack.push(v);
             }
             Instruction::PopValueStackIntoA => {
-                let v = self.value_stack.pop().expect("value_stack underflow!");
+                // no value: control is in a SELECT CASE block whose header was not
+                // executed (it pushes the selector), see PopRegisters
+                let v = self
+                    .value_stack
+                    .pop()
+                    .ok_or(RuntimeError::IllegalFunctionCall)
+                    .with_err_at(&pos)?;
                 self.registers_mut().set_a(v);
             }
             Instruction::PrintSetPrinterType(printer_type) => {
